@@ -25,7 +25,7 @@ MENUS = collections.OrderedDict([
     ('byhour', [0, (6, 18), 23]),
     ('byminute', [0, (15, 45), 59, (0, 30)]),
     ('bysecond', [0, (10, 50), 59, (0, 30)]),
-    ('term', [('count', 1), ('count', 7), ('until', 'occ'), ('until', 'occ-1s'), ('until', 'date')]),
+    ('term', [('count', 1), ('count', 7), ('until', 'occ'), ('until', 'occ-1s'), ('until', 'date'), ('count', 0)]),
     ('kind', ['date', 'utc', 'tzfile', 'micro']),
 ])
 
@@ -35,7 +35,8 @@ STARTS = [D.datetime(1997, 9, 2, 9, 0, 0),        # the suite's start (Tuesday)
           D.datetime(2003, 1, 1, 12, 30, 15),
           D.datetime(2099, 12, 29, 6, 0, 0),      # century, non-leap 2100 ahead
           D.datetime(2004, 12, 27, 18, 45, 5),    # Monday of 2004-W53
-          D.datetime(9998, 12, 28, 9, 0, 0)]      # real MAXYEAR stop
+          D.datetime(9998, 12, 28, 9, 0, 0),      # real MAXYEAR stop
+          D.datetime(2006, 1, 1, 0, 0, 0)]        # Sunday, 1 January, midnight (day index 0, all-zero time)
 
 # horizon in days and occurrences compared, per frequency
 HORIZON_DAYS = {0: 365 * 13, 1: 365 * 4, 2: 500, 3: 400, 4: 40, 5: 3, 6: 1}
